@@ -1,4 +1,8 @@
 import JsonVerif.Lemmas.CanonThm
+import JsonVerif.Lemmas.CanonNum
+import JsonVerif.Lemmas.Hub
+import JsonVerif.Lemmas.Steps
+import JsonVerif.Lemmas.PrintOneLine
 /-!
 # C10 — Canonical form is idempotent, blind to member order, spacing, number spelling
 
@@ -52,12 +56,37 @@ theorem C10_preserves (nc : List Char → List Char) :
       rw [canonM_eq_map] at this ⊢
       simpa [List.map_map, Function.comp_def] using this
 
-/-- Whitespace and escape spelling are not part of the parsed value at all: two documents that
-    parse to the same value have the same canonical form (trivially), and by C02's decoding clause
-    documents differing only in whitespace/escapes parse to the same value. Full statement kept
-    for the day the parser-vs-grammar theorem is available. -/
-def C10_doc_full (parse : List Char → Option JValue) (sameUpToWsAndEscapes : List Char → List Char → Prop) : Prop :=
-  ∀ d₁ d₂, sameUpToWsAndEscapes d₁ d₂ → parse d₁ = parse d₂
+/-- **Member order and number spelling together, at every depth**: two values that become equal up
+    to the order of entries (`PermEq`) once each number is replaced by the spelling `nc` gives it
+    have the same canonical form — for an idempotent `nc` (hypothesis on the opaque number
+    canonicalizer; tested). -/
+theorem C10_order_and_numbers (nc : List Char → List Char) (hnc : ∀ n, nc (nc n) = nc n)
+    (a b : JValue) (h : SameUpToOrderAndNumbers nc a b) : canon nc a = canon nc b :=
+  canon_blind nc hnc h
+
+/-- **Documents**: whitespace and the way string characters are escaped are not part of a
+    document's content at all — `GDoc text v` (RFC 8259's grammar with its value semantics,
+    Spec/Grammar.lean; C01/C02) relates every spelling of a document to the one value `v` it
+    denotes, the `ws` productions and the choice between a character and its escapes being the only
+    freedom left once `v` is fixed. So for two documents whose contents are equal up to member
+    order and number spelling — in particular two spellings of the SAME content — parsing (under
+    any option record) succeeds on both and canonicalize-then-print gives byte-identical output. -/
+theorem C10_documents (o : ParseOptions) (nc : List Char → List Char) (hnc : ∀ n, nc (nc n) = nc n)
+    (d₁ d₂ : List Char) (v₁ v₂ : JValue) (h₁ : GDoc d₁ v₁) (h₂ : GDoc d₂ v₂)
+    (h : SameUpToOrderAndNumbers nc v₁ v₂) :
+    ∃ cm₁ cm₂, parseStr o d₁ = .ok (v₁, cm₁) ∧ parseStr o d₂ = .ok (v₂, cm₂) ∧
+      printWith Gen.compactPreset 0 (canon nc v₁) = printWith Gen.compactPreset 0 (canon nc v₂) := by
+  obtain ⟨cm₁, e₁⟩ := parse_complete o h₁
+  obtain ⟨cm₂, e₂⟩ := parse_complete o h₂
+  exact ⟨cm₁, cm₂, e₁, e₂, by rw [canon_blind nc hnc h]⟩
+
+/-- Two spellings of the same content (whitespace, escapes): same parsed value. -/
+theorem C10_whitespace_and_escapes (o : ParseOptions) (d₁ d₂ : List Char) (v : JValue)
+    (h₁ : GDoc d₁ v) (h₂ : GDoc d₂ v) :
+    ∃ cm₁ cm₂, parseStr o d₁ = .ok (v, cm₁) ∧ parseStr o d₂ = .ok (v, cm₂) := by
+  obtain ⟨cm₁, e₁⟩ := parse_complete o h₁
+  obtain ⟨cm₂, e₂⟩ := parse_complete o h₂
+  exact ⟨cm₁, cm₂, e₁, e₂⟩
 
 /-! Non-vacuity: the hypotheses are satisfiable (an idempotent `nc`; two different values related
     by a permutation one level down). -/
@@ -66,5 +95,14 @@ example : PermEq (.array [.object [(['b'], .number ['1']), (['a'], .null)]])
                  (.array [.object [(['a'], .null), (['b'], .number ['1'])]]) :=
   .array (.cons (.object (PermEqM.cons (b1 := [(['a'], .null)]) (b2 := []) (.number _)
     (PermEqM.cons (b1 := []) (b2 := []) .null .nil))) .nil)
+
+/-! … and two different spellings of one content (whitespace, `\u0061` for `a`, `\/` for `/`),
+    kernel-evaluated on the model of the parser. -/
+example :
+    ((parseChars ⟨false, false⟩ " { \"\\u0061\" : [ 1 , \"\\/\" ] } ".toList false).toOption.map (fun r => JValue.beq r.1
+        (.object [(['a'], .array [.number ['1'], .string ['/']])])) = some true) ∧
+    ((parseChars ⟨false, false⟩ "{\"a\":[1,\"/\"]}".toList false).toOption.map (fun r => JValue.beq r.1
+        (.object [(['a'], .array [.number ['1'], .string ['/']])])) = some true) := by
+  rw [← parseCharsF_eq, ← parseCharsF_eq]; decide +kernel
 
 end JsonVerif.C10
